@@ -45,6 +45,8 @@ static struct thread_data g_td;                       /* the one thread object t
 /* thread_data members called by switch_status: the lifted bodies, inlined (their own contracts are U2) */
 static bool set_state_tagged(struct thread_data *self, thread_schedule_state newstate, struct thread_state *prev_state, struct thread_state *new_tagged_state)
 //@LIFT set_state_tagged_body
+static bool restore_state_2(struct thread_data *self, thread_schedule_state new_state, thread_restart_state state_ex, struct thread_state old_state)
+//@LIFT restore_state_2_body
 static bool restore_state_1(struct thread_data *self, struct thread_state new_state, struct thread_state old_state)
 //@LIFT restore_state_1_body
 
